@@ -175,10 +175,13 @@ def restore_player(ctx, league, name, path, ids_seen=None, check=False):
 
 
 def same_value(a, b):
-    """'Holding exactly the given value': numerically equal numbers (an int 25 and a float
-    25.0 are the same value - a constructor may coerce); anything else must be equal and of
-    the same type."""
+    """'Holding exactly the given value': the same double where a float is given and a float is
+    held (sign of zero included); numerically equal where an int meets a float (an int 25 and a
+    float 25.0 are the same value - a constructor may coerce); anything else must be equal
+    and of the same type."""
     num = (int, float)
+    if isinstance(a, float) and isinstance(b, float):
+        return a.hex() == b.hex()  # the same double: -0.0 given is -0.0 held
     if isinstance(a, num) and isinstance(b, num) and not isinstance(a, bool) and not isinstance(b, bool):
         return a == b
     return type(a) is type(b) and a == b
@@ -307,6 +310,14 @@ def exec_call(ctx, league, op, tracer=None):
     rec = {"op": op, "snap": snap_teams(teams), "reseeded": rs, "cfg": league.cfg}
     if op["op"] == "RATE":
         kw = rate_kwargs(op)
+        if ctx.params.get("house_outcomes"):
+            # standing result tables: an outcome that was used before is passed as the very
+            # same list object again (the reference always builds its own from the op)
+            pool = league.__dict__.setdefault("outcome_pool", {})
+            for sel in ("ranks", "scores"):
+                if sel in kw:
+                    kw[sel] = pool.setdefault((sel, json.dumps(op[sel])), kw[sel])
+                    ctx.count("standing_outcome_list_passed")
         rec["kw"] = kw
         fn = lambda: league.model.rate(teams, **kw)
     else:
@@ -371,7 +382,16 @@ def gen_rate_op(rng, ctx, league, names, opt_rate=0.3, shape=(4, 3), maker="rand
         strengths = [sum(float(league.players[n].mu) for n in t) / b if all(n in league.players for n in t) else 0.0 for t in teams]
     place = weak_order(rng, len(teams), rule, strengths)
     op = {"op": "RATE", "teams": teams}
-    op.update(encode_outcome(rng, place))
+    outcome = encode_outcome(rng, place)
+    if ctx.params.get("house_outcomes"):
+        # a service with a handful of standing result tables ("PODIUM = [3, 1, 2]"): the same
+        # outcome recurs, and exec_call hands the library the same list OBJECT each time
+        seen = ctx.__dict__.setdefault("house", {}).setdefault(len(teams), [])
+        if seen and rng.random() < 0.6:
+            outcome = dict(rng.choice(seen))
+        elif outcome:
+            seen.append(outcome)
+    op.update(outcome)
     op.update(gen_options(rng, ctx.cfg, rate=opt_rate))
     return op
 
@@ -428,6 +448,7 @@ def _calls_params(rng, prop):
         "shape": rng.choice([[4, 3], [4, 3], [4, 3], [6, 4], [8, 8], [12, 2]]),
         "p_extreme": rng.choice([0.0, 0.03, 0.1]),
         "p_other_model": rng.choice([0.0, 0.05, 0.15]),
+        "house_outcomes": rng.random() < 0.3,
     }
 
 
@@ -460,6 +481,34 @@ def deep_probe(model):
             if tm.startswith("openskill") and not isinstance(v, type) and not callable(v):
                 holders.append(v)
 
+    # state that functions carry with them: closure cells ("nonlocal" counters, arenas, memo
+    # slots of a factory-made helper) and mutable default arguments
+    import types as _types
+
+    cells, defaults = [], []
+    for d in dicts:
+        for v in list(d.values()):
+            f = getattr(v, "__func__", v)
+            f = getattr(f, "__wrapped__", f)
+            if isinstance(f, _types.FunctionType):
+                cells.extend(f.__closure__ or ())
+                for dv in tuple(f.__defaults__ or ()) + tuple((f.__kwdefaults__ or {}).values()):
+                    if type(dv) in cont:
+                        defaults.append(dv)
+
+    def cell_value(c):
+        try:
+            v = c.cell_contents
+        except ValueError:  # empty cell
+            return None
+        if type(v) in prim:
+            return v
+        if type(v) is list and len(v) <= 1024:
+            return tuple(map(id, v))
+        if type(v) in cont:
+            return (id(v), len(v))
+        return id(v)
+
     def probe():
         out = [tuple(map(id, md.values()))]
         for d in dicts:
@@ -468,6 +517,10 @@ def deep_probe(model):
             out.append(sum(len(v) for v in vals if type(v) in cont))
         for h in holders:
             out.append(tuple(v if type(v) in prim else id(v) for v in instance_attrs(h).values()))
+        if cells:
+            out.append(tuple(map(cell_value, cells)))
+        if defaults:
+            out.append(tuple(map(len, defaults)))
         return out
 
     return probe
@@ -772,7 +825,7 @@ class CallsDriver:
             ids = id_mode(rec["snap"])
             lib = self.lib()
             if op["op"] == "RATE":
-                ref = ref_rate(cfg, rec["snap"], rate_kwargs(op), "iso%d" % ctx.i, stats=ctx.stats, lib=lib, ids=ids, warm=(h64(rec["snap"]) % 3 == 1))
+                ref = ref_rate(cfg, rec["snap"], rate_kwargs(op, distinct=True), "iso%d" % ctx.i, stats=ctx.stats, lib=lib, ids=ids, warm=(h64(rec["snap"]) % 3 == 1))
             else:
                 ref = ref_predict(cfg, rec["snap"], op["kind"], "iso%d" % ctx.i, stats=ctx.stats, lib=lib, ids=ids)
             ctx.evaluations += 1
@@ -1111,7 +1164,7 @@ class SigmaDriver:
         prior = dec(rec["snap"])
         post = dec(rec["out"][1])
         ctx.evaluations += 1
-        where = {"model": ctx.cfg["model"], "op": op, "snap": rec["snap"],
+        where = {"model": ctx.cfg["model"], "op": op, "snap": rec["snap"], "gamma": ctx.cfg["kwargs"].get("gamma"),
                  "tau_source": "per_call_tau" if "tau" in op else "model_tau",
                  "limit_source": "per_call_limit" if "limit_sigma" in op else "model_limit"}
         check_sigma(prior, post, tau, limit, where)
@@ -1225,11 +1278,31 @@ class RejectDriver:
                 sizes = [len(t) for t in teams]
                 big = sum(sizes) > 9 or len(sizes) > 5
                 g = faults.grammar(sizes, ctx.cfg["model"], positions=(250 if big else "all"), rng=frng)
-                return {"op": "INJECT", "teams": teams, "faults": g, "twins": True}
+                return {"op": "INJECT", "teams": teams, "faults": g, "twins": True, "raw": self.gen_raw(frng, teams)}
         r = rng.random()
         if r < 0.85:
             return gen_rate_op(rng, ctx, self.league, names, p["opt_rate"], shape=(4, 3))
         return gen_predict_op(rng, names, self.league)
+
+    def gen_raw(self, frng, teams):
+        """Some participants arrive as the application typed them in, not as an earlier rate()
+        left them: whole numbers (`rating(mu=25, sigma=8)`), an int zero, a sigma of 0 (known
+        exactly; only where the model's tau makes the game computable).  Such ratings are the
+        model's own rating objects - calls with them are well-formed, and a refused call must
+        leave them exactly as they are (an int stays that int)."""
+        d = self.league.dom
+        kw = self.ctx.cfg["kwargs"]
+        mu0, sg0, mt = dec(kw["mu"]), dec(kw["sigma"]), dec(kw["tau"])
+        raw = {}
+        for nme in flat(teams):
+            r = frng.random()
+            if r < 0.2:
+                mu = frng.choice([0, int(mu0), int(mu0) + 3]) if abs(int(mu0)) + 3 <= d.mu_max else 0
+                sg = int(min(d.sig_max, max(1, round(sg0)))) if d.sig_max >= 1 and d.sig_min <= 1 else enc(min(d.sig_max, max(d.sig_min, sg0)))
+                raw[nme] = [mu, sg]
+            elif r < 0.3 and mt >= 1e-3 * d.beta:
+                raw[nme] = [frng.choice([0, enc(min(d.mu_max, max(-d.mu_max, mu0)))]), frng.choice([0, enc(0.0), enc(-0.0)])]
+        return raw
 
     def run(self):
         ctx = self.ctx
@@ -1255,6 +1328,20 @@ class RejectDriver:
         names = op["teams"]
         league.ensure(flat(names))
         league.reseed_out_of_domain(names, tau_zero=True)
+        zero_sigma = False
+        raw = sorted((n, dec(v[0]), dec(v[1])) for n, v in (op.get("raw") or {}).items() if n in league.players)
+
+        def type_in():
+            # fresh objects holding the values as typed (an accepted call may have normalised
+            # the previous ones, which is not this property's business)
+            for nme, mu, sg in raw:
+                league.players[nme] = league.factory.rating(mu=mu, sigma=sg, name=league.label(nme))
+                league.save(nme)
+
+        type_in()
+        for nme, mu, sg in raw:
+            zero_sigma = zero_sigma or sg == 0
+            ctx.fault("hand_written_rating_values")
         model_name = ctx.cfg["model"]
         # a long-lived argument structure (outer list + roster lists) that the library has
         # already ACCEPTED: in-place faults are written into these very list objects
@@ -1271,6 +1358,8 @@ class RejectDriver:
                 saved = (list(teams), [list(x) for x in teams])
                 ctx.count("inplace_faults")
             else:
+                if raw:
+                    type_in()
                 teams = league.teams_of(names)
             call, args, kw = faults.build_call(desc, model_name, teams)
             label = faults.fault_label(desc)
@@ -1315,6 +1404,10 @@ class RejectDriver:
         if op.get("twins"):
             n = len(names)
             for label, kw in faults.wellformed_twins(n):
+                if zero_sigma and "tau" in kw and not kw["tau"] >= 1e-3 * league.dom.beta:
+                    # a sigma of exactly 0 and no additive dynamics: a team variance of 0, the
+                    # game is outside the domain in which the library computes anything
+                    continue
                 # on rebuilt copies, so that the league's own history is not disturbed
                 teams = [[mk_rating(league.model, p.mu, p.sigma, p.name) for p in t] for t in league.teams_of(names)]
                 st, val = call_outcome(lambda: league.model.rate(teams, **kw))
